@@ -750,6 +750,20 @@ fn exec_inner(x: &mut AnyBv, y: &Y, op: &str, f: &str, a: &Args) -> Out {
         // handled by the drivers (needs interning); here: DefaultHasher output as a number's low bits
         return with_any!(&*x, xv => Out::Bytes(hash_stream(xv)));
     }
+    if op == "rop" {
+        // the subject used as the RIGHT operand of an operation on a fresh, longer left operand z
+        // (all ones): z OP= &subject, z == subject, z.append(&subject), ...  The subject keeps its
+        // storage state (clone()), so whatever lies beyond its length may leak into z.
+        let tk = a.tk.expect("harness: rop needs the kind of the left operand");
+        let extra = a.n.unwrap_or(0) as usize;
+        const ROPS: [(&str, &str); 12] = [("and", "ar"), ("or", "ar"), ("xor", "rr"), ("add", "ar"), ("sub", "rr"), ("mul", "rr"), ("eq", ""), ("append", ""),
+                                          ("prepend", ""), ("and", "rr"), ("ge", ""), ("div_rem", "")];
+        let (rop, rf) = ROPS[a.i.unwrap_or(0) % ROPS.len()];
+        let zb: Vec<u8> = vec![1; x.len() + extra];
+        let mut z = AnyBv::fresh(tk, &zb);
+        let o = exec_inner(&mut z, &Y::Vec(x.clone()), rop, rf, &Args::default());
+        return if o == Out::Unit { Out::Vec(z.bits()) } else { o };
+    }
     if op == "hash_slice" {
         return with_any!(&*x, xv => Out::Bytes(hash_slice_stream(xv)));
     }
